@@ -143,7 +143,9 @@ def run(ctx: Ctx) -> Result:
 
 
 def replay(payload):
-    specs = {s['name']: s for s in catalogue('thorough')}
+    tier = payload.get('tier', 'quick')
+    specs = {s['name']: s for t in ('thorough', 'quick', tier)
+             for s in catalogue(t)}
     return replay_violation(
         payload, lambda pl: make_factory(
             specs[pl['spec_name']], pl.get('tier', 'quick')))
